@@ -27,6 +27,7 @@ import (
 	"sort"
 	"strconv"
 	"strings"
+	"sync"
 	"time"
 
 	"connectrpc.com/conformance/internal"
@@ -102,6 +103,7 @@ func (w *wireReader) Close() error {
 }
 
 type wireWrapper struct {
+	setOnce        sync.Once
 	traceAvailable chan struct{}
 	trace          tracer.Trace
 	// buf represents the read response body
@@ -138,15 +140,19 @@ func withWireCapture(ctx context.Context) context.Context {
 	})
 }
 
-// setWireTrace sets the given trace in the given context. Should never be called
-// more than once for the same context.
+// setWireTrace sets the given trace in the given context. Calls after the
+// first one for the same context have no effect.
 func setWireTrace(ctx context.Context, trace tracer.Trace) {
 	wrapper, ok := ctx.Value(wireCtxKey{}).(*wireWrapper)
 	if !ok {
 		return
 	}
-	wrapper.trace = trace
-	close(wrapper.traceAvailable)
+	// A call can consist of more than one HTTP operation (for example if
+	// a redirect is followed): the first one to complete wins.
+	wrapper.setOnce.Do(func() {
+		wrapper.trace = trace
+		close(wrapper.traceAvailable)
+	})
 }
 
 // examineWireDetails examines certain wire details of the call and returns the
